@@ -400,6 +400,13 @@ def load_known_findings():
     return known, fixed
 
 
+def is_known_signature(prop, signature):
+    """A finding whose signature is listed as known needs no minimisation: it is
+    reported by its signature (and minimising it on every run costs a minute)."""
+    known, _ = load_known_findings()
+    return any(k.get("property") == prop and k.get("signature") == signature for k in known)
+
+
 def match_known(finding, known):
     for k in known:
         if k.get("property") == finding.prop and k.get("signature") == finding.signature:
